@@ -254,6 +254,104 @@ def run(prog, chk):
     if early:
         chk.note("File::copy returns false on %d path(s) without closing the source descriptor (descriptor leak; not a clause of C19)" % len(early))
     open_flag_table(prog, chk, "C19.g")
+    position_preserving_probe(prog, chk, "C19.h")
+
+
+def position_preserving_probe(prog, chk, rid):
+    """File::size() measures with lseek(SEEK_END): a query must leave the file position where the caller put it"""
+    chk.rule(rid, "MPT/FIN: in File::size() every path from the successful end-of-file probe (lseek SEEK_END) to a return passes "
+                  "lseek(saved position, SEEK_SET), except on edges where the saved position is known to equal the probe's result", floor=1)
+    f = ffn(prog, "File::size", "File.cpp")
+    where = "%s:%s" % (f.file, f.line)
+    seeks = callsn(f, "lseek") + callsn(f, "lseek64")
+    by = {0: [], 1: [], 2: []}
+    for c in seeks:
+        a = q.call_args(f, c)
+        wh = fin.eval_expr(f, a[2], {}) if len(a) == 3 else None
+        if wh in by:
+            by[wh].append(c)
+    if not by[2]:
+        chk.ok(rid, f, "size() does not move the file position (no SEEK_END probe)", where, "no lseek(.., SEEK_END)", nontrivial=False)
+        return
+
+    def result_name(c):
+        p_ = f.up(c)
+        while p_ is not None and f.nodes[p_]["k"] in ("ImplicitCastExpr", "CStyleCastExpr", "ParenExpr"):
+            p_ = f.up(p_)
+        if p_ is None:
+            return None
+        n_ = f.nodes[p_]
+        if n_["k"] == "DeclStmt":
+            for d_ in n_["decls"]:
+                if d_.get("init") is not None and c in f.desc(d_["init"]):
+                    return d_["n"]
+        if n_["k"] == "BinaryOperator" and n_.get("op") == "=":
+            return q.no_casts(f.r(n_["c"][0]))
+        return None
+    for probe in by[2]:
+        sz = result_name(probe)
+        saves = [c for c in by[1] if q.reaches(f, c, probe)]
+        cur = result_name(saves[0]) if saves else None
+        restores = [c for c in by[0] if cur is not None and q.no_casts(f.r(q.call_args(f, c)[1])) == cur and q.reaches(f, probe, c)]
+        if cur is None or sz is None:
+            chk.bad(rid, f, "position-not-saved", f.where(probe), "the end-of-file probe is not preceded by a saved lseek(.., 0, SEEK_CUR) position "
+                    "(or its result is not kept): the caller's file position cannot be restored")
+            continue
+        avoid = set(q.pos_of(f, restores))
+        cut = set()      # excused block-to-block edges
+
+        def bypass():
+            from collections import deque
+            start = f.node_pos(probe)
+            prev = {}
+            dq = deque()
+            for s_ in f.succs_pos(start):
+                if s_ not in avoid:
+                    prev[s_] = start
+                    dq.append(s_)
+            while dq:
+                x = dq.popleft()
+                if x == f.exit_pos():
+                    out = [x]
+                    while out[-1] != start:
+                        out.append(prev[out[-1]])
+                    return list(reversed(out))
+                for y in f.succs_pos(x):
+                    if y in prev or y in avoid or (x[0] != y[0] and (x[0], y[0]) in cut):
+                        continue
+                    prev[y] = x
+                    dq.append(y)
+            return None
+        verdict = None
+        for _ in range(12):
+            pth = bypass()
+            if pth is None:
+                break
+            excused = None
+            for (pb, pi), (nb, ni) in zip(pth, pth[1:]):
+                blk = f.blocks[pb]
+                if nb == pb or blk.get("cond") is None or len(blk["succ"]) != 2 or blk["succ"][0] == blk["succ"][1]:
+                    continue
+                for an, tr in q.cond_atoms(f, blk["cond"], blk["succ"][0] == nb):
+                    cn = fin._canon(f, an, tr)
+                    if cn[0] == "val":
+                        continue
+                    if (cn[1] == "==" and {cn[0], cn[2]} == {cur, sz}) or (cn[1] == "<" and cn[0] == sz and cn[2] == "0") or \
+                       (cn[1] == "==" and {cn[0], cn[2]} == {sz, "-1"}):
+                        excused = (pb, nb)
+                if excused:
+                    break
+            if excused is None:
+                verdict = pth
+                break
+            cut.add(excused)
+        if verdict is None:
+            chk.ok(rid, f, "position restored after the SEEK_END probe unless `%s == %s`" % (cur, sz), f.where(probe), "MPT with excused edges", evals=3)
+        else:
+            chk.bad(rid, f, "position-not-restored", f.where(probe),
+                    "a path (lines %s) returns after lseek(.., SEEK_END) moved the position without seeking back to `%s`, and nothing on it "
+                    "says `%s == %s`: with the position beyond the end of the file size()/readAll() leave it at the end, the next write "
+                    "lands at the wrong offset" % (f.path_lines(verdict), cur, cur, sz))
 
 
 def open_flag_table(prog, chk, rid):
